@@ -973,12 +973,10 @@ func (e *Evaluator) evalBangOperatorExp(
 	right object.Object,
 	node ast.Node,
 ) object.Object {
-	switch right {
-	case FALSE:
-		return TRUE
-	case TRUE:
-		return FALSE
-	case NIL:
+	switch right := right.(type) {
+	case *object.Bool:
+		return nativeBoolToBooleanObject(!right.Value)
+	case *object.Nil:
 		return TRUE
 	}
 
